@@ -176,6 +176,12 @@ def step (d : DSt) (args : List String) : DSt × String :=
     match parseNat? t, parseNat? a, parseNat? dn, parseNat? amt with
     | some t, some a, some dn, some amt => apply d t (.gift a dn amt t)
     | _, _, _, _ => (d, "bad-op")
+  | ["reimport", t] =>
+    -- the module is exported and started again from the export: every record of the model is part of the genesis
+    -- format (licences, clients, fee granter, funders, sale contracts), bank and auth are other modules — nothing changes
+    match parseNat? t with
+    | some t => let d' := { d with now := t }; (d', "ok " ++ showState d')
+    | none => (d, "bad-op")
   | ["setfg", t, a] =>
     match parseNat? t, parseNat? a with
     | some t, some a => apply d t (.setFeegranter a)
